@@ -43,4 +43,5 @@ def main(tier):
     chk.run("R-SUBALIGN", WN.subalign, cx.cpp, floor=2)
     chk.run("R-CLAMP", WN.clamp, cx.cpp, floor=3)
     chk.run("R-ARRAYELEM", WN.arrayelem, cx.cpp, floor=6)
+    chk.run("R-MIRROR", C.mirror, cx.cpp, floor=8)
     return chk.finish()
